@@ -829,6 +829,10 @@ func (e *Engine) runPath(prefix []Decision, run func()) {
 				}
 				e.finishPath()
 				e.sample("completed")
+			case processCrash:
+				e.Res.PathsCompleted++
+			case deadlock:
+				e.noteInconclusive("all interpreted goroutines blocked (deadlock in the model)")
 			case pathEnd:
 				e.Res.PathsPruned++
 			case inconclusive:
